@@ -291,8 +291,14 @@ def mapping_names(fn: ast.AST) -> set:
             for x in ast.walk(getattr(n, "target", None) or ast.Pass()):
                 if isinstance(x, ast.Name):
                     binds.setdefault(x.id, []).append(None)
+    def _envelope_params(v):
+        # `getattr(message, "params", None) or {}`: the envelope models type params as an optional JSON object
+        return (isinstance(v, ast.BoolOp) and isinstance(v.op, ast.Or) and len(v.values) == 2 and isinstance(v.values[1], ast.Dict) and not v.values[1].keys
+                and isinstance(v.values[0], ast.Call) and isinstance(v.values[0].func, ast.Name) and v.values[0].func.id == "getattr" and len(v.values[0].args) >= 2
+                and isinstance(v.values[0].args[1], ast.Constant) and v.values[0].args[1].value == "params")
+
     for k, vs in binds.items():
-        if vs and all(v is not None and (isinstance(v, ast.Dict) or (isinstance(v, ast.Call) and isinstance(v.func, ast.Name) and v.func.id == "dict")) for v in vs):
+        if vs and all(v is not None and (isinstance(v, ast.Dict) or _envelope_params(v) or (isinstance(v, ast.Call) and isinstance(v.func, ast.Name) and v.func.id == "dict")) for v in vs):
             out.add(k)
         elif k in out:
             out.discard(k)  # a mapping parameter that is rebound to something else
@@ -337,6 +343,18 @@ def is_list_total(call: ast.Call, names: set, truthy=()) -> bool:
         if f.attr == "pop" and len(call.args) <= 1 and all(isinstance(a, ast.Constant) and a.value in (0, -1) for a in call.args):
             return f.value.id in truthy
     return False
+
+
+def is_mapping_get_here(call: ast.Call, st) -> bool:
+    """`x.get(<constant>[, default])` where the path knows x to be a dict: it tested `isinstance(x, dict)`, or x is an
+    empty display on this path."""
+    f = call.func
+    if not (isinstance(f, ast.Attribute) and f.attr == "get" and isinstance(f.value, ast.Name) and 1 <= len(call.args) <= 2 and not call.keywords and isinstance(call.args[0], ast.Constant)):
+        return False
+    t = st.term(f.value.id) or f.value.id
+    if t in ("{}", "dict()"):
+        return True
+    return any(l.startswith(f"isinstance({t}, ") and not l.startswith("not ") and ("dict" in l or "Mapping" in l) for l in st.lits)
 
 
 def is_sequence_op(call: ast.Call, st) -> bool:
